@@ -304,6 +304,46 @@ def h_complete_builders(ctx, kind, choice):
                   lambda vals: c17.builder_system(ctx, env.child(values=vals), kind, choice))
 
 
+def h_categorical_ancestors(ctx, skeleton, start, tz=None, n=4, args=None):
+    """completeness for the inputs that are not numbers: the country's time zone is an ancestor of the UTC journey starts
+    (whatever the date: ordinary days, the night an hour is skipped, the night an hour is repeated), the server type of
+    the instance counts, and an edit of either recomputes the values that depend on it (live = fresh)"""
+    import pytz
+    from datetime import datetime
+    from efootprint.abstract_modeling_classes.source_objects import SourceObject
+    spec = M.SKELETONS[skeleton](n, **(args or {}))
+    for c in spec["countries"].values():
+        if tz:
+            c["tz"] = tz
+    for po in spec["patterns"].values():
+        po["starts"]["start"] = datetime.fromisoformat(start)
+    env = M.Env(ctx, symbolic=traffic_syms(spec))
+    objs = M.build(spec, env)
+    V.observe_system(ctx, objs)
+    gt = gt_sets(spec)
+    for p_ in gt["patterns"]:
+        up, country = objs[p_], objs[spec["patterns"][p_]["country"]]
+        for attr in ("utc_hourly_usage_journey_starts", "nb_usage_journeys_in_parallel", "energy_footprint"):
+            anc = {id(a) for a in getattr(up, attr).all_ancestors_with_id}
+            ctx.require(id(country.timezone) in anc, f"{p_}.{attr}: the country's time zone is among its ancestors")
+        for j in gt["jobs_of_pattern"][p_]:
+            anc = {id(a) for a in objs[j].hourly_occurrences_across_usage_patterns.all_ancestors_with_id}
+            ctx.require(id(country.timezone) in anc, f"{j}.hourly_occurrences_across_usage_patterns: time zone of {p_}'s country among its ancestors")
+    for s_ in gt["servers"]:
+        srv = objs[s_]
+        for attr in ("nb_of_instances", "instances_energy", "energy_footprint"):
+            anc = {id(a) for a in getattr(srv, attr).all_ancestors_with_id}
+            ctx.require(id(srv.server_type) in anc, f"{s_}.{attr}: the server type is among its ancestors")
+    # editing the zone on the live system = building with the new zone
+    c0 = spec["patterns"][gt["patterns"][0]]["country"]
+    new_zone = "Asia/Tokyo" if spec["countries"][c0].get("tz") != "Asia/Tokyo" else "Europe/Paris"
+    objs[c0].timezone = SourceObject(pytz.timezone(new_zone))
+    spec2 = M.spec_copy(spec)
+    spec2["countries"][c0]["tz"] = new_zone
+    from harness.c01 import compare_live_fresh
+    compare_live_fresh(ctx, objs, spec2, env, f"after setting {c0}.timezone to {new_zone}", graph=False)
+
+
 def h_consistent_builders(ctx, kind, choice, edit=True):
     """graph consistency of systems made with the builder classes, after building and after editing a builder input"""
     from harness import c17
@@ -380,7 +420,8 @@ def h_mock_dags(ctx, nodes):
     ctx.count("mock_dags", count)
 
 
-HARNESSES = {"complete": h_complete, "consistent": h_consistent, "mock_dags": h_mock_dags, "consistent_builders": h_consistent_builders, "complete_builders": h_complete_builders}
+HARNESSES = {"complete": h_complete, "consistent": h_consistent, "mock_dags": h_mock_dags, "consistent_builders": h_consistent_builders, "complete_builders": h_complete_builders,
+             "categorical_ancestors": h_categorical_ancestors}
 L = lambda o, a, t: dict(k="link", obj=o, attr=a, target=t)  # noqa
 
 
@@ -393,6 +434,10 @@ def plan(tier, seed):
          ("mock_dags", dict(nodes=3)), ("mock_dags", dict(nodes=4)), ("mock_dags", dict(nodes=5))]
     for sk in ("T1", "T5", "T7", "T9", "TX"):
         p.append(("consistent", dict(skeleton=sk)))
+    for st, z in (("2025-01-01T00:00:00", None), ("2025-03-30T00:00:00", "Europe/Paris"), ("2025-10-26T00:00:00", "Europe/Paris"),
+                  ("2025-03-09T00:00:00", "America/New_York")):
+        p.append(("categorical_ancestors", dict(skeleton="T5", start=st, tz=z, args={"type1": "on-premise", "type2": "serverless"})))
+    p.append(("categorical_ancestors", dict(skeleton="T9", start="2025-03-30T01:00:00", tz="Europe/Berlin", n=3)))
     from harness.c17 import BUILDER_CASES
     for kind, choice in BUILDER_CASES:
         p.append(("consistent_builders", dict(kind=kind, choice=choice)))
